@@ -229,7 +229,10 @@ func (st *prodState) promise(p *prec) func(*kgo.Record, error) {
 			cancel() // event-triggered: runs while other goroutines are runnable
 		}
 		st.s.UserCode()
-		if pct := st.s.P.Knob("prom_sleep_pct", 0); pct > 0 && int64(st.s.Pick(100)) < pct {
+		st.mu.Lock()
+		inline := p.returnSeq == 0 // called from inside Produce/TryProduce itself (immediate failure)
+		st.mu.Unlock()
+		if pct := st.s.P.Knob("prom_sleep_pct", 0); pct > 0 && !inline && int64(st.s.Pick(100)) < pct {
 			// a promise that takes its time (only the promise: hooks inside
 			// TryProduce stay instantaneous)
 			time.Sleep(time.Duration(100+st.s.Pick(int(st.s.P.Knob("prom_sleep_us_max", 5000)))) * time.Microsecond)
@@ -284,13 +287,14 @@ func (st *prodState) runActor(cl *kgo.Client, client string, ai int, a plan.Acto
 			ctx, cancel := st.ctxFor(op)
 			p.invokeSeq = s.Seq()
 			t0 := s.Now()
+			b0 := rtSpinBreaksNow()
 			if op.Kind == "try" || manual {
 				if op.Kind == "try" {
 					cl.TryProduce(ctx, p.rec, st.promise(p))
 				} else {
 					cl.Produce(ctx, p.rec, st.promise(p))
 				}
-				if d := s.Now() - t0; d > 0 {
+				if d := s.Now() - t0; d > 0 && rtSpinBreaksNow() == b0 { // (time the spin guard charged to a busy loop elsewhere in the client is not this call blocking)
 					// the fake clock only advances when every goroutine is
 					// durably blocked, so elapsed time means the call blocked.
 					s.Violf("C03/tryproduce-blocked", "%s blocked for %v (manual=%v)", op.Kind, d, manual)
